@@ -2,9 +2,12 @@ package drivers
 
 import (
 	"encoding/json"
+	"fmt"
 	"os"
 	"path/filepath"
+	"runtime"
 	"sync"
+	"sync/atomic"
 	"testing"
 	"testing/synctest"
 	"time"
@@ -79,7 +82,7 @@ func TestC18Conn(t *testing.T) {
 					Msgs:    [2]int{0, 0},
 					Horizon: time.Hour, RecvForever: true,
 					CloseScript: func(r *gbnrun.Run) {},
-					Extra:   []gbn.TimeoutOptions{gbn.WithHandshakeTimeout(4*lat + time.Second)},
+					Extra:       []gbn.TimeoutOptions{gbn.WithHandshakeTimeout(4*lat + time.Second)},
 				}
 				cfg.OnReady = func(r *gbnrun.Run) {
 					conns := []*gbn.GoBackNConn{r.Client, r.Server}
@@ -221,6 +224,69 @@ func TestC18Stress(t *testing.T) {
 		}(g)
 	}
 	wg.Wait()
+	// send queue: the send loop adds packets and resends the window (on the
+	// resend ticker / a NACK), the receive loop processes ACKs and NACKs, the
+	// application's Send path looks at the size - all at the same instants
+	noteCurrent(dir, map[string]any{"scenario": "c18stress-queue"})
+	for _, sp := range []uint8{2, 4} {
+		vq := gbn.NewVerifQueue(sp, nil, gbn.WithStaticResendTimeout(300*time.Microsecond))
+		end = time.Now().Add(dur)
+		var ops [3]atomic.Int64
+		qdone := make(chan struct{})
+		var qwg sync.WaitGroup
+		qwg.Add(3)
+		go func() { // send loop
+			defer qwg.Done()
+			// first half: the resend ticker fires on an empty queue
+			// (an idle connection) while stale ACKs / NACKs arrive
+			half := end.Add(-dur / 2)
+			for time.Now().Before(half) {
+				_ = vq.Resend()
+				ops[0].Add(1)
+			}
+			for i := 0; time.Now().Before(end); i++ {
+				if vq.Size() < sp-1 {
+					vq.Add()
+				} else {
+					_ = vq.Resend()
+				}
+				if i%3 == 0 {
+					_ = vq.Resend()
+				}
+				ops[0].Add(1)
+			}
+		}()
+		go func() { // receive loop
+			defer qwg.Done()
+			for i := 0; time.Now().Before(end); i++ {
+				if i%4 == 3 {
+					vq.ProcessNACK(uint8(i/4) % sp)
+				} else {
+					vq.ProcessACK(uint8(i/4) % sp)
+				}
+				ops[1].Add(1)
+			}
+		}()
+		go func() { // application
+			defer qwg.Done()
+			for time.Now().Before(end) {
+				_ = vq.Size()
+				ops[2].Add(1)
+				time.Sleep(50 * time.Microsecond)
+			}
+		}()
+		go func() { qwg.Wait(); close(qdone) }()
+		select {
+		case <-qdone:
+		case <-time.After(dur + 20*time.Second):
+			buf := make([]byte, 1<<20)
+			n := runtime.Stack(buf, true)
+			fmt.Printf("VERIF-HANG scenario={\"scenario\":\"c18stress-queue\",\"s\":%d,\"ops\":[%d,%d,%d]}\n%s\n",
+				sp, ops[0].Load(), ops[1].Load(), ops[2].Load(), buf[:n])
+			os.Exit(3)
+		}
+		vq.Stop()
+	}
 	f, err := os.Create(filepath.Join(dir, "c18stress.ndjson"))
 	if err != nil {
 		t.Fatal(err)
